@@ -44,21 +44,23 @@ namespace Impl
 
 theorem comboCalls_has {fs : FS} {filemap : FileMap} {dest : Path} {paths : List PathNode} :
     ∀ {choice : List (Path × Bytes)}, Combo fs filemap paths choice → ∀ pn ∈ paths, ∀ dp,
-      safeJoin dest pn.file.full = some dp →
+      pn.file.pad = false → safeJoin dest pn.file.full = some dp →
       ∃ src, (src, dp) ∈ comboCalls dest paths choice ∧ (fs.readFile? src).isSome := by
   induction paths with
   | nil => intro choice _ pn hpn; simp at hpn
   | cons p ps ih =>
-    intro choice hc pn hpn dp hsj
+    intro choice hc pn hpn dp hpad hsj
     cases choice with
     | nil => exact absurd hc (by simp [Combo])
     | cons c cs =>
-      obtain ⟨⟨_, _, _, _, _, hread⟩, hrest⟩ := hc
+      obtain ⟨hhead, hrest⟩ := hc
       simp only [comboCalls]
       cases hpn with
-      | head => exact ⟨c.1, by simp [hsj], by rw [hread]; rfl⟩
+      | head =>
+        obtain ⟨_, _, _, _, _, hread⟩ := hhead hpad
+        exact ⟨c.1, by simp [hsj, hpad], by rw [hread]; rfl⟩
       | tail _ hpn =>
-        obtain ⟨src, hm, hf⟩ := ih hrest pn hpn dp hsj
+        obtain ⟨src, hm, hf⟩ := ih hrest pn hpn dp hpad hsj
         exact ⟨src, List.mem_append_left _ hm, hf⟩
 
 theorem matchV1Loop_present (H1 : Bytes → Bytes) (ds : Nat) (filemap : FileMap) (dest : Path)
@@ -85,12 +87,12 @@ theorem matchV1Loop_present (H1 : Bytes → Bytes) (ds : Nat) (filemap : FileMap
         simp only at h ⊢
         have hroot' : (applyOps fs (runCalls ds fs calls)).ex [] = true := applyOps_ex _ fs [] hroot
         rcases List.mem_append.mp h with h | h
-        · obtain ⟨hs, pn, hpn, hfull⟩ := markCopied_counted dest paths copied f h
+        · obtain ⟨hs, pn, hpn, hfull, hpad⟩ := markCopied_counted dest paths copied f h
           obtain ⟨choice, hcombo, _, hcalls⟩ := findMatches_sound H1 fs filemap dest piece paths [] calls hf
           cases hsj : safeJoin dest f with
           | none => rw [hsj] at hs; cases hs
           | some dp =>
-            obtain ⟨src, hm, hfile⟩ := comboCalls_has hcombo pn hpn dp (by rw [hfull]; exact hsj)
+            obtain ⟨src, hm, hfile⟩ := comboCalls_has hcombo pn hpn dp hpad (by rw [hfull]; exact hsj)
             refine ⟨dp, rfl, ?_⟩
             rw [applyOps_append]
             apply applyOps_ex
@@ -117,13 +119,20 @@ theorem findMatches_complete_combo (H1 : Bytes → Bytes) (fs : FS) (filemap : F
     cases choice with
     | nil => exact absurd hc (by simp [Combo])
     | cons c cs =>
-      obtain ⟨⟨cands, sz, hl, hm, hsz, hread⟩, hrest⟩ := hc
-      simp only [findMatches, hl]
+      obtain ⟨hhead, hrest⟩ := hc
+      cases hpad : pn.file.pad with
+      | true =>
+        simp only [findMatches, hpad, if_true]
+        exact ih cs (data ++ padPart pn) hrest
+          (by simpa [comboData, nodePart_pad hpad, List.append_assoc] using hh)
+      | false =>
+      obtain ⟨cands, sz, hl, hm, hsz, hread⟩ := hhead hpad
+      simp only [findMatches, hpad, Bool.false_eq_true, if_false, hl]
       rw [List.findSome?_isSome_iff]
       refine ⟨(c.1, sz), hm, ?_⟩
       simp only [hsz, ne_eq, not_true_eq_false, if_false, hread]
       have := ih cs (data ++ getPart pn.start pn.stop c.2) hrest
-        (by simpa [comboData, List.append_assoc] using hh)
+        (by simpa [comboData, nodePart_file hpad, List.append_assoc] using hh)
       cases hrec : findMatches H1 fs filemap dest piece ps (data ++ getPart pn.start pn.stop c.2) with
       | none => rw [hrec] at this; cases this
       | some calls => rfl
